@@ -5,7 +5,7 @@ IR (sort in "FLOAT"/"DOUBLE", rm in RNE RNA RTP RTN RTZ):
   fp:   ("fconst", bits, sort) ("fvar", name, sort) ("fadd"|"fsub"|"fmul"|"fdiv", rm, a, b) ("fsqrt", rm, a)
         ("fabs", a) ("fneg", a) ("to_fp_fp", rm, a, sort) ("to_fp_sbv", rm, bv, sort) ("to_fp_ubv", rm, bv, sort)
         ("to_fp_bits", bv, sort) ("ffp", sgn, exp, sig) ("fite", c, a, b)
-  bool: ("flt"|"fle"|"fgt"|"fge"|"feq"|"fne", a, b) ("isnan", a) ("isinf", a) ("bvar", name) ("bconst", b)
+  bool: ("flt"|"fle"|"fgt"|"fge"|"feq"|"fne", a, b) ("isnan", a) ("isinf", a) ("bvar", name) ("bconst", b) ("eq", bv, bv)
   bv:   ("to_sbv", rm, a, size) ("to_ubv", rm, a, size) ("to_ieee", a) ("const", v, n) ("var", name, n)
 """
 
@@ -40,7 +40,7 @@ def kind(t):
     op = t[0]
     if op in ("fconst", "fvar", "fsqrt", "fabs", "fneg", "to_fp_fp", "to_fp_sbv", "to_fp_ubv", "to_fp_bits", "ffp", "fite") or op in FP_ARITH:
         return "fp"
-    if op in FP_CMP or op in ("isnan", "isinf", "bvar", "bconst"):
+    if op in FP_CMP or op in ("isnan", "isinf", "bvar", "bconst", "eq"):
         return "bool"
     return "bv"
 
@@ -196,6 +196,8 @@ def z3term(t):
         if op == "fne":
             return z3.Not(z3.fpEQ(a, b))
         return {"flt": z3.fpLT, "fle": z3.fpLEQ, "fgt": z3.fpGT, "fge": z3.fpGEQ, "feq": z3.fpEQ}[op](a, b)
+    if op == "eq":  # bit-vector equality (used by C26 to pin IEEE bit patterns / integer sources)
+        return z3term(t[1]) == z3term(t[2])
     if op == "isnan":
         return z3.fpIsNaN(z3term(t[1]))
     if op == "isinf":
@@ -360,6 +362,8 @@ def build(t, ch=None):
                     "feq": lambda: a == b, "fne": lambda: a != b}[op]()
         return {"flt": claripy.fpLT, "fle": claripy.fpLEQ, "fgt": claripy.fpGT, "fge": claripy.fpGEQ,
                 "feq": claripy.fpEQ, "fne": claripy.fpNEQ}[op](a, b)
+    if op == "eq":
+        return build(t[1], ch) == build(t[2], ch)
     if op == "isnan":
         a = build(t[1], ch)
         return a.isNaN() if ch.pick(2) else claripy.fpIsNaN(a)
@@ -443,7 +447,7 @@ def int_consts(n):
 @st.composite
 def fp_tree(draw, sort, depth, symbolic):
     if depth <= 0 or draw(st.integers(0, 9)) < 3:
-        if symbolic and draw(st.integers(0, 2)) == 0:
+        if symbolic and draw(st.integers(0, 2)) < (2 if symbolic == "mostly" else 1):
             return ("fvar", f"f{draw(st.integers(0, 1))}_{sort[0]}", sort)
         return draw(fconsts(sort))
     d = depth - 1
@@ -474,7 +478,7 @@ def fp_tree(draw, sort, depth, symbolic):
 @st.composite
 def bv_tree(draw, n, depth, symbolic):
     if depth <= 0 or draw(st.integers(0, 9)) < 4:
-        if symbolic and draw(st.integers(0, 3)) == 0:
+        if symbolic and draw(st.integers(0, 3)) < (2 if symbolic == "mostly" else 1):
             return ("var", f"b0_{n}", n)
         return draw(int_consts(n))
     d = depth - 1
@@ -511,6 +515,46 @@ def any_tree(draw, max_depth=3, symbolic=False):
             t = (draw(st.sampled_from(("to_sbv", "to_ubv"))), draw(st.sampled_from(RMS)), draw(fp_tree(srt, 0, symbolic)), n)
         return t
     return draw(bool_tree(d, symbolic))
+
+
+def special_bits(sort):
+    """One representative bit pattern per special class (+/-0, +/-inf, NaN, subnormal, 1.0, largest finite, a tie)."""
+    n = BITS[sort]
+    sign = 1 << (n - 1)
+    inf = ((1 << EB[sort]) - 1) << (SB[sort] - 1)
+    return [0, sign, inf, inf | sign, inf | 1 << (SB[sort] - 2), 1, float_to_bits(1.0, sort), inf - 1, float_to_bits(2.5, sort), float_to_bits(-1.5, sort)]
+
+
+def envs_for(t, draw, extra=4, vars_=None):
+    """Assignments for the variables of t: every special class for every FP variable (rotated), plus `extra` drawn ones."""
+    vars_ = variables(T(t)) if vars_ is None else vars_
+    envs = []
+    names = sorted(vars_)
+    for k in range(10):
+        env = {}
+        for j, name in enumerate(names):
+            info = vars_[name]
+            if info[0] == "fp":
+                sp_ = special_bits(info[1])
+                env[name] = sp_[(k + 3 * j) % len(sp_)]
+            elif info[0] == "bv":
+                m = (1 << info[1]) - 1
+                env[name] = [0, 1, m, 1 << (info[1] - 1), m >> 1, (2**24 + 1) & m, 3, (2**53 + 1) & m, 255 & m, 2 & m][(k + j) % 10]
+            else:
+                env[name] = bool((k + j) % 2)
+        envs.append(env)
+    for _ in range(extra):
+        env = {}
+        for name in names:
+            info = vars_[name]
+            if info[0] == "fp":
+                env[name] = draw(st.sampled_from(pool(info[1])))
+            elif info[0] == "bv":
+                env[name] = draw(int_consts(info[1]))[1]
+            else:
+                env[name] = draw(st.booleans())
+        envs.append(env)
+    return envs if names else [{}]
 
 
 def crash_cases(tier):
